@@ -414,7 +414,7 @@ func (fr *frame) lookup(in *ssa.Lookup) Value {
 	x := fr.get(in.X)
 	switch c := x.(type) {
 	case StrV:
-		return fr.index(c, termOf(fr.get(in.Index)))
+		return fr.index(c, fr.idxTerm(in.Index))
 	case *MapV:
 		var vt types.Type
 		if mt, ok := in.X.Type().Underlying().(*types.Map); ok {
